@@ -229,7 +229,9 @@ def first_diff(a, b):
     return "line %d: %s" % (min(len(a), len(b)) + 1, "got extra %r" % a[len(b)][:100] if len(a) > len(b) else "missing %r" % b[len(a)][:100])
 
 
-PRETTY = re.compile(r"^\d\d\.\d\d\.\d{4} \d\d:\d\d:\d\d (.) (?:\[([^\]]*)\] )?(.*)$")
+# between the type letter and the category the pretty layout has a thread column once a second thread has logged (the docs show
+# "1", the code prints "T1 " and blanks for the first thread): any such label is accepted, the column is not what C19 is about
+PRETTY = re.compile(r"^\d\d\.\d\d\.\d{4} \d\d:\d\d:\d\d (.) (?:T?\d+ +| +)?(?:\[([^\]]*)\] )?(.*)$")
 
 
 def match_pretty(line, ty, cat, text):
@@ -304,6 +306,7 @@ def run_config(case):
             STATS.cls("file_output", has_path)
             STATS.cls("async", truthy(keys.get("async"), False))
             STATS.cls("mode_ini")
+            STATS.cls("messages_from_several_threads", len({m.get("thr", 0) for m in msgs}) > 1)
             STATS.note_case(dict(mode="ini", keys=sorted(keys), n=len(msgs), passing=len(passing), old=len(old)), nontrivial)
             if has_path:
                 # the file receives what the console receives: same formatter
@@ -360,6 +363,7 @@ def run_config(case):
             if not match_pretty_any_width(l, m["type"], m["cat"] or "default", m["text"]):
                 return "console line %r is not the pretty rendering of message %r (%s, category %s)" % (l[:160], m["text"], TYPES[m["type"]], m["cat"] or "default")
         STATS.cls("mode_oneline")
+        STATS.cls("messages_from_several_threads", len({m.get("thr", 0) for m in msgs}) > 1)
         STATS.cls("file_output", bool(a.get("path")))
         STATS.cls("console_line_with_colour", any("\x1b[" in l for l in elines))
         rotating = a["size"] > 0 or a["startup"] or a["daily"]
@@ -373,7 +377,7 @@ def run_config(case):
         shutil.rmtree(work, ignore_errors=True)
 
 
-PRETTY_W = re.compile(r"^\d\d\.\d\d\.\d{4} \d\d:\d\d:\d\d (.) (?:\[([^\]]*)\] )? *(.*)$")
+PRETTY_W = re.compile(r"^\d\d\.\d\d\.\d{4} \d\d:\d\d:\d\d (.) (?:T?\d+ +| +)?(?:\[([^\]]*)\] )? *(.*)$")
 
 
 def match_pretty_any_width(line, ty, cat, text):
@@ -456,7 +460,7 @@ def strategy():
 
     cats = ["", "app.core", "app.net", "db"]
     words = ["start", "error", "password=1", "42x", "plain text", "end", "Error", "start error end", "%{message}", "a|b", "[x]"]
-    msg = st.builds(lambda ty, c, w, i: dict(type=ty, cat=c, text="%s#%d" % (w, i)), st.integers(0, 3), st.sampled_from(cats), st.sampled_from(words), st.integers(0, 99))
+    msg = st.builds(lambda ty, c, w, i, thr: dict(type=ty, cat=c, text="%s#%d" % (w, i), thr=thr), st.integers(0, 3), st.sampled_from(cats), st.sampled_from(words), st.integers(0, 99), st.sampled_from([0, 0, 0, 0, 1, 2]))
     messages = st.lists(msg, min_size=1, max_size=40)
     rule = st.tuples(st.sampled_from(["*", "app.*", "app.core", "app.net", "db", "default", "*.net", "a*e", "app", "d*"]), st.sampled_from([None, None, 0, 1, 2, 3]), st.booleans())
     boolsp = st.sampled_from(["true", "false", "1", "0", True, False])
